@@ -918,6 +918,42 @@ fn check_c18_shapes() {
     } } }
 }
 
+// every SHAPE over the rationals (VecMatrix<BigRational>): rank against fraction-free elimination on i128, solve sound and complete on
+// consistent systems, null-space matrix of the right shape and annihilated.  Stated bound: 25 integer matrices per shape 1..4 x 1..4, entries
+// in -3..=3 with many zeros and repeated rows (fixed seed).
+fn check_c18_shapes_rational() {
+    use num_bigint::BigInt; use num_rational::BigRational; use num_traits::Zero;
+    let q = |v: i64| BigRational::from_integer(BigInt::from(v));
+    let mut rng = Rng(707);
+    for rows in 1..=4usize { for cols in 1..=4usize { for _ in 0..25 {
+        let mut data: Vec<Vec<i64>> = (0..rows).map(|_| (0..cols).map(|_| if rng.below(3) == 0 { 0 } else { rng.below(7) as i64 - 3 }).collect()).collect();
+        if rows > 1 && rng.below(3) == 0 { let (a, b) = (rng.below(rows), rng.below(rows)); data[a] = data[b].clone(); }
+        if rng.below(4) == 0 { for r in data.iter_mut() { r[0] = 0; } }
+        let x0: Vec<i64> = (0..cols).map(|_| rng.below(5) as i64 - 2).collect();
+        let bs: Vec<i64> = (0..rows).map(|i| (0..cols).map(|j| data[i][j] * x0[j]).sum::<i64>()).collect();
+        let txt = format!("over Q: A={:?} b={:?}", data, bs);
+        let mk = || { let mut m = VecMatrix::<BigRational>::new(rows, cols); for i in 0..rows { for j in 0..cols { m[(i, j)] = q(data[i][j]); } } m };
+        let exp_rank = exact_rank(&data);
+        match quiet(|| mk().rank()) { Ok(r) => if r != exp_rank { falsified("VecMatrix::rank", txt.clone(), format!("{} but the rank over Q is {}", r, exp_rank)); }, Err(e) => falsified("VecMatrix::rank", txt.clone(), format!("panic {}", e)) }
+        let sol = quiet(|| { let a = mk(); let mut b = VecMatrix::<BigRational>::new(rows, 1); for i in 0..rows { b[(i, 0)] = q(bs[i]); } a.solve(&b).map(|x| (0..cols).map(|j| x[(j, 0)].clone()).collect::<Vec<BigRational>>()) });
+        match sol {
+            Ok(Some(x)) => { for i in 0..rows { let mut acc = BigRational::zero(); for j in 0..cols { acc = acc + q(data[i][j]) * x[j].clone(); } if acc != q(bs[i]) { falsified("VecMatrix::solve", txt.clone(), format!("returned {:?} which is not a solution (row {})", x.iter().map(|v| v.to_string()).collect::<Vec<_>>(), i)); break; } } }
+            Ok(None) => falsified("VecMatrix::solve", txt.clone(), format!("None, but the system is consistent (x = {:?} solves it)", x0)),
+            Err(e) => falsified("VecMatrix::solve", txt.clone(), format!("panic {}", e)),
+        }
+        match quiet(|| { let n = mk().null_space_matrix(); let (nr, nc) = (rust_dsymbols::geometry::traits::Array2d::nr_rows(&n), rust_dsymbols::geometry::traits::Array2d::nr_columns(&n)); (0..nr).map(|i| (0..nc).map(|j| n[(i, j)].clone()).collect::<Vec<BigRational>>()).collect::<Vec<Vec<BigRational>>>() }) {
+            Err(e) => falsified("VecMatrix::null_space_matrix", txt.clone(), format!("panic {}", e)),
+            Ok(n) => {
+                let nc = if n.is_empty() { 0 } else { n[0].len() };
+                if cols - exp_rank > 0 {
+                    if n.len() != cols || nc != cols - exp_rank { falsified("VecMatrix::null_space_matrix", txt.clone(), format!("{} x {} matrix, expected {} x {}", n.len(), nc, cols, cols - exp_rank)); }
+                    else { for i in 0..rows { for k in 0..nc { let mut acc = BigRational::zero(); for j in 0..cols { acc = acc + q(data[i][j]) * n[j][k].clone(); } if !acc.is_zero() { falsified("VecMatrix::null_space_matrix", txt.clone(), format!("column {} is not annihilated (row {})", k, i)); } } } }
+                }
+            }
+        }
+    } } }
+}
+
 // random subgroups of the Coxeter groups S4 = [3,3] and S5 = [3,3,3]; the index is computed independently from the faithful
 // permutation representation s_i = (i i+1) by brute-force closure
 fn perm_mul(a: &Vec<usize>, b: &Vec<usize>) -> Vec<usize> { (0..a.len()).map(|i| b[a[i]]).collect() }
@@ -1367,7 +1403,7 @@ fn main() {
     start_watchdog();
     match prop.as_str() {
         "C01" => check_c01(), "C02" => { check_c02(); check_c02_graph(); check_c02_graph_partial(); check_c02_plain_r(); check_c02_mutators(); }, "C04" => { check_c04(); check_c04_minimal(); }, "C05" => { check_c05(); check_c05_covers(); check_c05_universal(); check_c05_count(); if thorough() { check_c05_sweep(); } },
-        "C10" => check_c10(), "C11" => { check_c11(); check_c11_random(); check_c11_exhaustive(); check_c11_small_groups(); }, "C18" => { check_c18(); check_c18_exact(); check_c18_shapes(); check_c18_modular(); }, "C20" => { check_c20(); check_c20_unions(); }, "C13" => { check_c13(); check_c13_large(); },
+        "C10" => check_c10(), "C11" => { check_c11(); check_c11_random(); check_c11_exhaustive(); check_c11_small_groups(); }, "C18" => { check_c18(); check_c18_exact(); check_c18_shapes(); check_c18_shapes_rational(); check_c18_modular(); }, "C20" => { check_c20(); check_c20_unions(); }, "C13" => { check_c13(); check_c13_large(); },
         _ => { eprintln!("unknown property"); std::process::exit(2); }
     }
     unsafe { println!("falsifier finished: {} discrepancies", COUNT); }
